@@ -5,6 +5,8 @@ HERE = os.path.dirname(os.path.abspath(__file__)); VERIF = os.path.dirname(HERE)
 NOTE = ('trusted: clang++-14 front end + fixed IR pipeline, tools/ir2c.py (IR->C, must-fire), prelude headers, CBMC 6.11; GCC code generation and '
         'strict-aliasing UB not modelled; the set of instantiations (shapes, patterns, configurations) is enumerated, element values are universally quantified')
 CHECKS = {
+ 'C01': dict(text='For every enumerated (M,K,N), element type (int32, float, double), API form (matmul on maps / owning tensors, lazy %, matrix-vector, vector-matrix), ISA, standard and block-size macro: the contract "every result element equals sum_k A(i,k)*B(k,j), nothing else written, no access outside the operands" is enforced on the translated real code (goto-instrument --dfcc) and discharged by CBMC in ATOMS mode: the kernel provably evaluates the Einstein polynomial with each product exactly once; exact for integer-valued data. The floating-point rounding bound of the property is NOT machine-checked.',
+             technique='CBMC code contracts (DFCC) on clang-IR-extracted Fastor entry points, provenance-concrete (ATOMS) evaluation', ref='5 (C01), 4'),
  'C14': dict(text='For every enumerated instantiation (shape, axis permutation, element type, ISA, C++ standard) the contract "out(i[p[0]],..,i[p[k]]) == A(i[0],..,i[k]) for every multi-index, nothing else written, no access outside the operands" is enforced on the translated real code by goto-instrument --dfcc and discharged by CBMC for all element values (mode SYM).',
              technique='CBMC code contracts (DFCC) on clang-IR-extracted Fastor entry points, symbolic data', ref='5 (C14), 2, 3'),
 }
